@@ -649,7 +649,15 @@ pub fn table(thorough: bool) -> Vec<Row> {
     monty!("MontyForm::inv", true, [1,2,4,8], |a, b, x| { let o = a.inv(); oc(N, o.is_some()); });
     monty!("MontyForm:Invert::invert", true, [1,2,4], |a, b, x| { let o = Invert::invert(a); och(N, o.is_some()); });
     monty!("MontyForm:ct_eq", false, [1,2,4], |a, b, x| { och(0, a.ct_eq(b)); });
-    monty!("MontyForm::conditional_select", false, [1,2,4], |a, b, x| { ou(0, MontyForm::conditional_select(a, b, Choice::from((x.a.as_words()[0] & 1) as u8)).as_montgomery()); });
+    monty!("MontyForm::conditional_select", false, [1,2,4], |a, b, x| {
+        // the selected PARAMETERS are observed as well (otherwise their selection is dead code and any leak in it is optimised away)
+        let r = MontyForm::conditional_select(a, b, Choice::from((x.a.as_words()[0] & 1) as u8)); ou(0, r.as_montgomery()); ou(N, r.params().modulus().as_ref());
+    });
+    monty!("MontyForm::conditional_assign/swap", false, [1,2,4], |a, b, x| {
+        let c = Choice::from((x.a.as_words()[0] & 1) as u8);
+        let (mut s1, mut s2) = (*a, *b); s1.conditional_assign(b, c); MontyForm::conditional_swap(&mut s1, &mut s2, c);
+        ou(0, s1.as_montgomery()); ou(N, s1.params().modulus().as_ref()); ou(2 * N, s2.as_montgomery()); ou(3 * N, s2.params().modulus().as_ref());
+    });
     row!(r; "MontyForm::pow_bounded_exp (public bits)"; n=[1,2,4,8]; s=2; ks=no_k; pubs=odd_moduli_bits; heavy=true; vt=false; prep=p_monty; |x| {
         let a: &MontyForm<N> = unsafe { getr(&MA) }; ou(0, a.pow_bounded_exp(&x.b, x.k).as_montgomery());
     });
@@ -725,6 +733,12 @@ pub fn table(thorough: bool) -> Vec<Row> {
     });
     row!(r; "Boxed::sbb_assign (1-limb rhs)"; n=[2,4,8]; s=2; ks=no_k; pubs=no_pub; heavy=false; vt=false; prep=p_boxed_narrow_b; |x| {
         let a = unsafe { H.ba.as_mut().unwrap_unchecked() }; let c = a.sbb_assign(h!(bb), Limb::ZERO); ob(0, a); sink(N, c.0);
+    });
+    row!(r; "Boxed:ct_eq/PartialEq (1-limb rhs)"; n=[2,4,8]; s=2; ks=no_k; pubs=no_pub; heavy=false; vt=false; prep=p_boxed_narrow_b; |x| {
+        och(0, h!(ba).ct_eq(h!(bb))); och(1, h!(bb).ct_eq(h!(ba))); sink(2, (h!(ba) == h!(bb)) as u64);
+    });
+    row!(r; "Boxed:ct_lt/ct_gt/Ord (1-limb rhs)"; n=[2,4,8]; s=2; ks=no_k; pubs=no_pub; heavy=false; vt=false; prep=p_boxed_narrow_b; |x| {
+        och(0, h!(ba).ct_lt(h!(bb))); och(1, h!(ba).ct_gt(h!(bb))); oord(2, Ord::cmp(h!(ba), h!(bb)));
     });
     row!(r; "Wrapping<Boxed>+=Boxed (1-limb rhs)"; n=[2,4,8]; s=2; ks=no_k; pubs=no_pub; heavy=false; vt=false; prep=p_boxed_narrow_b; |x| {
         let mut w = crypto_bigint::Wrapping(h!(ba).clone()); w += crypto_bigint::Wrapping(h!(bb).clone()); ob(0, &w.0);
